@@ -7,7 +7,7 @@ ASSUME = [
     "TLA+ contributes the STRUCTURE (document trees per format, presence rules, ct|tag|nonce segment lengths, key-id construction, the links of the key hierarchy, unique parseability) and the ENUMERATION of cases; it does not do the byte arithmetic. base64, JSON / protobuf / DynamoDB-JSON syntax and AES-256-GCM are executed by a reference codec written in Go from the documentation only (docs/DesignAndArchitecture.md, docs/Metastore.md, docs/KeyManagementService.md, server/protos/appencryption.proto, the property text) with the standard library and no SDK code; it is a differential oracle, hence level 'other'",
     "'cross-language' means 'documentation-derived': the Java and C# implementations are not available offline; the reference writer deliberately differs from the Go encoder where the documentation leaves freedom (field order, indentation, random nonces)",
     "channels: json = encoding/json of appencryption.DataRowRecord / EnvelopeKeyRecord (rows captured at Metastore.Store of the in-memory metastore); sql = the key_record TEXT column of persistence.SQLMetastore over a database/sql fake; ddbv1 / ddbv2 = the items the two DynamoDB metastores put / get through client fakes; grpc = the real sidecar AppEncryption.Session over an in-memory stream, messages serialized with gRPC's own proto codec, its key rows kept by its own 'dynamodb' metastore mode talking the DynamoDB JSON protocol to a localhost fake (so the DynamoDB wire JSON is read by the reference as well)",
-    "KMS = kms.NewStatic with the documented test master key (same ct|tag|nonce layout); AWS KMS envelopes (kmsKeks JSON) are not part of this engine",
+    "KMS = kms.NewStatic with the documented test master key (same ct|tag|nonce layout) plus, off the grpc channel, a trailer of 0..2 bytes of the KMS's own (what a KMS returns is opaque to the stored format; the three lengths take the system key row through every base64 padding class); AWS KMS envelopes (kmsKeks JSON) are not part of this engine",
     "revoked rows in direction sdk-to-ref are produced by the SDK's own metastore implementations: the chain written by a real session is copied through Metastore.Load / Metastore.Store into an empty store of the same channel with Revoked set (the SDK itself never revokes; the operator scripts do)",
     "region suffixes exist only on the DynamoDB metastores (ddbv1, ddbv2, grpc); timestamps are driven through the harness clock overlay (sdk-to-ref) or chosen by the reference writer (ref-to-sdk); their values are compared as decimal literals because they exceed TLC's 32-bit integers",
     "in direction sdk-to-ref the driver is built with the clock overlay and sets the SDK's clock to the timestamp class + 7 s; the data row key's Created has to be exactly that second and the key rows' Created within a day below it (epoch SECONDS; the policy's creation-date precision is not prescribed)",
